@@ -1,6 +1,7 @@
 import AndaVerif.Proofs.Bm25History
 import AndaVerif.Proofs.Bm25Flush
 import AndaVerif.Proofs.Bm25Score
+import AndaVerif.Proofs.Bm25Conc
 /-
 C11 — Full-text index retrieves exactly the matching documents, ranked stably.
 
@@ -330,4 +331,116 @@ example : Bm25Score.sanitizeK1 .nan = 1.2 ∧ Bm25Score.sanitizeB .negInf = 0.75
   constructor <;> norm_num [Bm25Score.sanitizeK1, Bm25Score.sanitizeB, Gen.Bm25Order.defaultK1Milli, Gen.Bm25Order.defaultBMilli]
 
 end Bm25
+
+/-! ## L3 — interleavings at the yield points (`Model/Bm25Conc`)
+
+Threads are `insert` / `remove` / `purge_ids` / `compact_buckets` calls cut into atomic actions at
+exactly the `verif` yield points of hook H3; `run sched c0` executes **any** list of thread numbers as
+a schedule (disabled choices — a gate that is not available, a finished thread — are skipped). Any number
+of threads of any mix; the statements quantify over all schedules and all initial shared states. -/
+namespace Bm25Conc
+
+open Bm25
+
+/-- **Nothing is lost for documents nobody works on.** Under every schedule of any threads, a document
+that is not the target of any thread keeps its length entry and exactly its entries under every token —
+whatever the other threads do to the same posting lists (appending, emptying, dropping an emptied
+posting, re-binning under the exclusive gate). -/
+theorem conc_untouched (sched : List Nat) (c0 : Cfg) (i : Nat) (hu : Unowned i (kinds c0)) :
+    Frame i c0.sh (run sched c0).sh :=
+  run_untouched sched c0 i hu
+
+/-- **A concurrent insert is not lost.** Threads working on pairwise different documents (what the
+collection's per-id locks give), all starting at their gate point: under every schedule, once an insert
+thread has returned `Ok`, its document has its length entry and a posting entry under every token of its
+text — in the final configuration and in every configuration after its return — so a term query for any
+of its tokens returns it. -/
+theorem conc_insert_not_lost (sched : List Nat) (c0 : Cfg) (hd : DisjointIds (kinds c0)) (hf : Fresh c0)
+    (k : Nat) (th : Thread) (id : Nat) (tf : List (Nat × Nat))
+    (hk : (run sched c0).threads[k]? = some th) (hkind : th.kind = .insert id tf)
+    (hdone : th.pc = .done) (hok : th.res = .ok) :
+    InsAll (run sched c0).sh id tf ∧ ∀ p ∈ tf, id ∈ termIds (run sched c0).sh.toIndex [p.1] := by
+  have hp := run_allIns sched c0 hd (AllIns.of_fresh hf) k th id tf hk hkind
+  have ha : InsAll (run sched c0).sh id tf := by
+    unfold InsProg at hp
+    rw [hdone] at hp
+    exact hp hok
+  exact ⟨ha, fun p hp' => mem_termIds_of_ins ha p hp'⟩
+
+/-- **Counters.** Starting from consistent counters and threads at their gate points, under every
+schedule: ids are never listed twice, `total_tokens` equals the sum of the lengths plus what purge
+threads have already taken out of `doc_tokens` but not yet subtracted; at quiescence
+`total_tokens = Σ doc_tokens` exactly (the average every score uses). -/
+theorem conc_counters_consistent (sched : List Nat) (c0 : Cfg) (h0 : CountInv c0) :
+    CountInv (run sched c0) ∧
+      (quiescent (run sched c0) = true →
+        (run sched c0).sh.totalTokens = sumSnd (run sched c0).sh.docTokens) := by
+  have h := run_countInv sched c0 h0
+  refine ⟨h, fun hq => ?_⟩
+  have := h.total
+  rw [owedL_of_quiescent _ hq] at this
+  omega
+
+/-- The full clause "concurrent mutations with compaction lose nothing": at quiescence additionally every
+posting is listed by the bucket that owns it and every bucket whose persisted content would change is
+dirty (flush + load = in-memory state). **Not proved** (the second half is false of the code after a
+remove with non-original text and a re-insert: finding 2); checked on every explored schedule of the real
+threads instead (`cstate … lost=-`, `flushcheck`, flush + `load_all` round trip). -/
+def conc_nothing_lost_full : Prop :=
+  ∀ (sched : List Nat) (c0 : Cfg), DisjointIds (kinds c0) → Fresh c0 → quiescent (run sched c0) = true →
+    ∀ t p, get? (run sched c0).sh.postings t = some p →
+      ∃ bk, get? (run sched c0).sh.buckets p.bucket = some bk ∧ bk.tokens.contains t = true
+
+/-- what is proved of it -/
+theorem conc_nothing_lost_partial (sched : List Nat) (c0 : Cfg) (hd : DisjointIds (kinds c0)) (hf : Fresh c0)
+    (h0 : CountInv c0) :
+    (∀ i, Unowned i (kinds c0) → Frame i c0.sh (run sched c0).sh)
+    ∧ (∀ (k : Nat) (th : Thread) (id : Nat) (tf : List (Nat × Nat)), (run sched c0).threads[k]? = some th →
+        th.kind = .insert id tf → th.pc = .done → th.res = .ok → InsAll (run sched c0).sh id tf)
+    ∧ (quiescent (run sched c0) = true → (run sched c0).sh.totalTokens = sumSnd (run sched c0).sh.docTokens) :=
+  ⟨fun i hu => conc_untouched sched c0 i hu,
+   fun k th id tf hk hkind hdone hok => (conc_insert_not_lost sched c0 hd hf k th id tf hk hkind hdone hok).1,
+   (conc_counters_consistent sched c0 h0).2⟩
+
+/-- the workload `rem 1 alpha ∥ ins 2 alpha` after `ins 1 alpha`, one of its 191 schedules -/
+def exampleCfg : Cfg :=
+  { sh := { docTokens := [(1, 1)], totalTokens := 1, postings := [(0, { bucket := 0, entries := [(1, 1)] })],
+            buckets := [(0, { dirty := false, tokens := [0], docIds := [1] })], maxBucket := 0, readers := 0,
+            writer := false, version := 2, zero := true },
+    threads := [Thread.new (.remove 1 [(0, 1)]), Thread.new (.insert 2 [(0, 1)])] }
+
+example : DisjointIds (kinds exampleCfg) := by
+  intro a b ka kb hne ha hb i hi
+  have hk : kinds exampleCfg = [.remove 1 [(0, 1)], .insert 2 [(0, 1)]] := rfl
+  rw [hk] at ha hb
+  rcases a with _ | _ | a <;> rcases b with _ | _ | b <;> simp at ha hb <;> subst ha <;> subst hb <;>
+    simp_all [ownIds]
+
+example : Fresh exampleCfg := by
+  intro th hth
+  have : exampleCfg.threads = [Thread.new (.remove 1 [(0, 1)]), Thread.new (.insert 2 [(0, 1)])] := rfl
+  rw [this] at hth
+  simp at hth
+  rcases hth with rfl | rfl <;> rfl
+
+example : CountInv exampleCfg :=
+  CountInv.of_fresh (by decide) (by decide) (by
+    intro th hth
+    have : exampleCfg.threads = [Thread.new (.remove 1 [(0, 1)]), Thread.new (.insert 2 [(0, 1)])] := rfl
+    rw [this] at hth
+    simp at hth
+    rcases hth with rfl | rfl <;> exact ⟨rfl, rfl⟩)
+
+/-- remove empties the posting, the insert appends before the emptied posting is dropped: the
+re-check keeps it, the token stays listed, document 2 is found -/
+example :
+    quiescent (run [0, 0, 1, 1, 0, 0, 0, 0, 1, 1] exampleCfg) = true
+      ∧ (run [0, 0, 1, 1, 0, 0, 0, 0, 1, 1] exampleCfg).sh.docTokens = [(2, 1)]
+      ∧ (run [0, 0, 1, 1, 0, 0, 0, 0, 1, 1] exampleCfg).sh.totalTokens = 1
+      ∧ termIds (run [0, 0, 1, 1, 0, 0, 0, 0, 1, 1] exampleCfg).sh.toIndex [0] = [2]
+      ∧ (run [0, 0, 1, 1, 0, 0, 0, 0, 1, 1] exampleCfg).sh.buckets
+          = [(0, { dirty := true, tokens := [0], docIds := [2] })] := by
+  refine ⟨?_, ?_, ?_, ?_, ?_⟩ <;> rfl
+
+end Bm25Conc
 end AndaVerif
